@@ -193,6 +193,9 @@ class CopyNative(Contract):
         for kind in ("points", "curve", "grid2d"):
             for target in ("same", "group", "other-ws", "other-ws-with-child"):
                 yield {"kind": kind, "target": target}
+            # the same copies after other entities with their own copy rules (surveys pass their own omit lists) were copied in this process
+            for prelude in ("tem", "dcip", "tipper", "drillhole"):
+                yield {"kind": kind, "target": "other-ws", "prelude": prelude}
 
     def native_check(self, case):
         from geoh5py.groups import ContainerGroup
@@ -202,6 +205,11 @@ class CopyNative(Contract):
         d = tempfile.mkdtemp()
         try:
             src_path, dst_path = os.path.join(d, "src.geoh5"), os.path.join(d, "dst.geoh5")
+            if case.get("prelude"):
+                from contracts.copy_wf import build
+
+                with Workspace() as pre, Workspace() as pre2:
+                    build(pre, case["prelude"]).copy(parent=pre2)
             with Workspace.create(src_path) as ws:
                 if case["kind"] == "points":
                     obj = Points.create(ws, name="o", vertices=np.arange(12.0).reshape(4, 3))
@@ -248,6 +256,17 @@ class CopyNative(Contract):
                 if "99" in repr(obj.metadata):
                     return f"editing the copy's metadata changed the source's metadata ({case})"
                 new.metadata["info"]["nested"].pop()
+                # ... nor edits of the copy's arrays in place (the usual v = copy.values; v[:k] = x; copy.values = v)
+                for kid in new.children:
+                    v = getattr(kid, "values", None)
+                    if isinstance(v, np.ndarray) and v.dtype.kind == "f" and len(v):
+                        v[: max(1, len(v) // 2)] = -999.25
+                vv = getattr(new, "vertices", None) if case["kind"] != "grid2d" else None
+                if isinstance(vv, np.ndarray) and vv.size:
+                    vv[0, 0] = -999.25
+                if _snap(obj) != before:
+                    bad = [k for k in before if _snap(obj)[k] != before[k]]
+                    return f"editing the arrays of the copy in place changed the source's {bad} ({case})"
                 if _snap(obj) != before:
                     return f"the source entity changed while it was copied ({case})"
                 if dst is not None:
